@@ -269,7 +269,10 @@ func RunDialSeries(opt Options, n int, ts TransferSpec, idle time.Duration, conn
 			c, err := w.Accept(ctx)
 			accCh <- acc{c, err}
 		}()
-		client, derr := w.Dial(ctx)
+		// every dial of the series names another host (all covered by the certificate): the spec value is
+		// reused, the server name is per dial
+		name := fmt.Sprintf("c%d.test", i%16)
+		client, derr := w.DialName(ctx, name)
 		dr.DialErr = derr
 		if derr != nil {
 			cancel()
@@ -278,6 +281,9 @@ func RunDialSeries(opt Options, n int, ts TransferSpec, idle time.Duration, conn
 		server := a.c
 		dr.AcceptErr = a.err
 		if derr == nil && a.err == nil {
+			if got := server.ConnectionState().TLS.ServerName; got != name {
+				dr.Viols = append(dr.Viols, Viol{"sni|server-saw-another-name", fmt.Sprintf("dial %d named %q, the server saw the server name %q", i+1, name, got)})
+			}
 			dr.Transfer = RunTransfer(ctx, client, server, connIdxBase+i, ts)
 			dr.Viols = append(dr.Viols, dr.Transfer.Viols...)
 			if idle > 0 {
